@@ -14,13 +14,19 @@ impl Prop for C06 {
     const STALL_IS_VIOLATION: bool = false;
     const BOTH_PROFILES: bool = true;
     fn count(tier: Tier) -> u64 {
-        match tier {
-            Tier::Quick => 150_000,
-            Tier::Thorough => 10_000_000,
-        }
+        sweep_len(tier)
+            + match tier {
+                Tier::Quick => 150_000,
+                Tier::Thorough => 10_000_000,
+            }
     }
-    fn gen(seed: u64, _idx: u64, _tier: Tier) -> CorruptCase {
-        gen_case(seed)
+    fn gen(seed: u64, idx: u64, tier: Tier) -> CorruptCase {
+        // indices below sweep_len: systematic single-field enumeration; above: seeded campaign
+        if idx < sweep_len(tier) {
+            sweep_case(idx)
+        } else {
+            gen_case(seed)
+        }
     }
     fn eval(case: &CorruptCase, st: &mut Stats) -> Vec<Violation> {
         // C06 does not judge work; the budget only ends runaway cases (C07 reports those)
@@ -40,7 +46,7 @@ impl Prop for C06 {
         shrink_case(case)
     }
     fn rule() -> String {
-        "seed image (canned files, real-muxer outputs incl. moov-first relocation, metadata/wave/64-bit-header variants, packager fragmented streams, init+segment pairs, muxer crash images) with 0-6 seeded storage faults (>= 60 % boundary values written into located length/count/offset/version/flag fields; bit flips, stuck bytes, zeroed / copied / dropped / duplicated ranges, cuts, garbled fourccs; 25 % with a further fault between two reader calls), then read_header, read_fragment_header and the full accessor schedule (every Mp4Reader/Mp4Track accessor, sample_count/sample_offset/read_sample for boundary ids, to_json/summary of every parsed box) under catch_unwind in the overflow-checked and the wrapping build; distinct_nontrivial = distinct (fault kind, box path:field, outcome class) triples".into()
+        "(systematic part) every located field of a fixed list of 17 seed images x 13 boundary values, one substitution per run (thorough: all 130 364 (image, field, value) triples; quick: the first 50 000); (seeded part) seed image (canned files, real-muxer outputs incl. moov-first relocation, metadata/wave/64-bit-header variants, packager fragmented streams, init+segment pairs, muxer crash images) with 0-6 seeded storage faults (>= 60 % boundary values written into located length/count/offset/version/flag fields; bit flips, stuck bytes, zeroed / copied / dropped / duplicated ranges, cuts, garbled fourccs; 25 % with a further fault between two reader calls), then read_header, read_fragment_header and the full accessor schedule (every Mp4Reader/Mp4Track accessor, sample_count/sample_offset/read_sample for boundary ids, to_json/summary of every parsed box) under catch_unwind in the overflow-checked and the wrapping build; distinct_nontrivial = distinct (fault kind, box path:field, outcome class) triples".into()
     }
     fn assumptions() -> Vec<String> {
         vec![
